@@ -77,6 +77,17 @@ structure ES where
   /-- ghost: which pipeline allocated the cell (`none`: the bus, i.e. the writer's `Send`) -/
   owner : Nat → Option Nat
 
+/-- what `CollectionChange.include` decides when the item's inclusion changes or it is excluded throughout
+(inclusion unchanged and included = the plain `forward`) -/
+inductive Decision | skip | toAdd | toRemove
+  deriving DecidableEq, Repr
+
+/-- `include`'s replacement event: a NEW `CollectionChange` (change.go: "treat this like an Add / a remove") -/
+def convEv (d : Decision) (e : Ev) : Ev :=
+  match d with
+  | .toAdd => { kind := .add, id := e.id, old := none, new := e.new, lastSeed := false }
+  | _ => { kind := .remove, id := e.id, old := e.old, new := none, lastSeed := false }
+
 inductive Step
   /-- `Collection.Pull`: a new subscriber -/
   | sub (lossy mask : Bool)
@@ -91,6 +102,9 @@ inductive Step
   | forward (i : Nat)
   /-- lossy Value subscriber: `DropExcess` discards the pending event when a newer one arrives -/
   | dropIn (i : Nat)
+  /-- backpressure subscriber with an include filter (`WithInclude`), when the filter does not simply pass the event:
+  it is dropped, or REPLACED by a new ADD / REMOVE event, which then goes through the read-mask filter -/
+  | forwardIncl (i : Nat) (d : Decision)
   /-- lossy subscriber: the merger receives the next event (copy in, merge into the private entry of that id) -/
   | mergeIn (i : Nat)
   /-- lossy subscriber: the merger emits the front of its queue (`&change`: a new cell), the Pull goroutine filters -/
@@ -152,6 +166,23 @@ def step (proj : Nat → Nat) (s : ES) : Step → ES
                    subs := replaceSub s.subs sb fun x => { x with inbox := rest, out := x.out ++ [s.next] } }
         else
           { s with subs := replaceSub s.subs sb fun x => { x with inbox := rest, out := x.out ++ [r] } }
+  | .forwardIncl i d =>
+    match s.subs.find? (fun sb => sb.idx = i) with
+    | none => s
+    | some sb =>
+      if sb.lossy && !sb.value then s else
+      match sb.inbox with
+      | [] => s
+      | r :: rest =>
+        if d = .skip then { s with subs := replaceSub s.subs sb fun x => { x with inbox := rest } }
+        else if sb.mask then
+          { s with heap := pushCells s.heap s.next [convEv d (s.heap r), projEv proj (convEv d (s.heap r))],
+                   owner := setOwner s.owner s.next 2 (some sb.idx), next := s.next + 2,
+                   subs := replaceSub s.subs sb fun x => { x with inbox := rest, out := x.out ++ [s.next + 1] } }
+        else
+          { s with heap := pushCells s.heap s.next [convEv d (s.heap r)],
+                   owner := setOwner s.owner s.next 1 (some sb.idx), next := s.next + 1,
+                   subs := replaceSub s.subs sb fun x => { x with inbox := rest, out := x.out ++ [s.next] } }
   | .mergeIn i =>
     match s.subs.find? (fun sb => sb.idx = i) with
     | none => s
@@ -218,23 +249,38 @@ def showEv (e : Ev) : String := s!"{showKind e.kind},{e.id},{showTok e.old},{sho
 /-- the driver's read-mask projection on message tokens (the harness maps a masked message to 1000 + token) -/
 def drvProj (t : Nat) : Nat := 1000 + t
 
-/-- after a send: every backpressure subscriber forwards; a lossy Collection subscriber (stalled consumer) merges in;
-a lossy Value subscriber (stalled consumer) lets `DropExcess` drop the older pending pointer -/
-def settle (s : ES) : ES :=
+/-- the driver's include filter, as `CollectionChange.include` evaluates it on an event: `none` = pass it on as it is -/
+def drvDecision (e : Ev) : Option Decision :=
+  let inc : Option Nat → Bool := fun v => match v with | some t => t % 2 == 0 | none => false
+  if inc e.old = inc e.new then (if inc e.new then none else some .skip)
+  else if inc e.new then some .toAdd else some .toRemove
+
+/-- after a send: every backpressure subscriber forwards (through its include filter if it has one); a lossy Collection
+subscriber (stalled consumer) merges in; a lossy Value subscriber (stalled consumer) lets `DropExcess` drop the older
+pending pointer -/
+def settle (incl : List Nat) (s : ES) : ES :=
   s.subs.foldl (fun acc sb => step drvProj acc
-    (if !sb.lossy then .forward sb.idx else if sb.value then .dropIn sb.idx else .mergeIn sb.idx)) s
+    (if !sb.lossy then
+      (if incl.contains sb.idx then
+        match (acc.subs.find? (fun x => x.idx = sb.idx)).bind (fun x => x.inbox.head?) with
+        | some r => (match drvDecision (acc.heap r) with | some d => .forwardIncl sb.idx d | none => .forward sb.idx)
+        | none => .forward sb.idx
+      else .forward sb.idx)
+    else if sb.value then .dropIn sb.idx else .mergeIn sb.idx)) s
 
 def canon (seen : List Nat) (r : Nat) : List Nat × Nat :=
   match seen.idxOf? r with
   | some i => (seen, i)
   | none => (seen ++ [r], seen.length)
 
-/-- the last event each backpressure subscriber received, as `#canonical-ref:event` -/
-def lastOuts (d : DrvEv) : DrvEv × List String :=
+/-- what each backpressure subscriber's consumer received since `before` (the subscribers' `out` lengths before the send):
+`#canonical-ref:event` of the last one, `-` if nothing new -/
+def lastOuts (before : List Nat) (d : DrvEv) : DrvEv × List String :=
   d.s.subs.foldl (fun (acc : DrvEv × List String) sb =>
     if sb.lossy then acc else
+    if sb.out.length = before.getD sb.idx 0 then (acc.1, acc.2 ++ ["-"]) else
     match sb.out.getLast? with
-    | none => (acc.1, acc.2 ++ ["none"])
+    | none => (acc.1, acc.2 ++ ["-"])
     | some r =>
       let (seen', k) := canon acc.1.seen r
       ({ acc.1 with seen := seen' }, acc.2 ++ [s!"#{k}:{showEv (acc.1.s.heap r)}"])) (d, [])
@@ -246,6 +292,10 @@ def handleEv (d : DrvEv) (toks : List String) : DrvEv × String :=
     match parseBool? l, parseBool? m with
     | some l, some m => ({ d with s := step drvProj d.s (.sub l m) }, "ok")
     | _, _ => (d, "!bad-op")
+  | ["subi", m] =>
+    match parseBool? m with
+    | some m => ({ d with s := step drvProj d.s (.sub false m), incl := d.incl ++ [d.s.subs.length] }, "ok")
+    | none => (d, "!bad-op")
   | ["vsub", l, m] =>
     match parseBool? l, parseBool? m with
     | some l, some m => ({ d with s := step drvProj d.s (.vsub l m) }, "ok")
@@ -253,15 +303,15 @@ def handleEv (d : DrvEv) (toks : List String) : DrvEv × String :=
   | ["vsend", n] =>
     match n.toNat? with
     | some n =>
-      let s1 := settle (step drvProj d.s (.vsend { kind := .update, id := 0, old := none, new := some n, lastSeed := false }))
-      let (d2, outs) := lastOuts { d with s := s1 }
+      let s1 := settle [] (step drvProj d.s (.vsend { kind := .update, id := 0, old := none, new := some n, lastSeed := false }))
+      let (d2, outs) := lastOuts (d.s.subs.map (·.out.length)) { d with s := s1 }
       (d2, "|".intercalate ("ok" :: outs))
     | none => (d, "!bad-op")
   | ["send", k, id, o, n] =>
     match parseKind? k, id.toNat?, parseTok? o, parseTok? n with
     | some k, some id, some o, some n =>
-      let s1 := settle (step drvProj d.s (.send { kind := k, id := id, old := o, new := n, lastSeed := false }))
-      let (d2, outs) := lastOuts { d with s := s1 }
+      let s1 := settle d.incl (step drvProj d.s (.send { kind := k, id := id, old := o, new := n, lastSeed := false }))
+      let (d2, outs) := lastOuts (d.s.subs.map (·.out.length)) { d with s := s1 }
       (d2, "|".intercalate ("ok" :: outs))
     | _, _, _, _ => (d, "!bad-op")
   | ["audit"] => (d, "seen=" ++ ";".intercalate (d.seen.map fun r => showEv (d.s.heap r)))
